@@ -1200,7 +1200,7 @@ class Executor:
             return out
         if isinstance(base, RefV) and isinstance(s.store[base.ref], AbsBox):
             box = s.store[base.ref]
-            if not isinstance(idx, Z) or box.length is None or box.elem_ann is None:
+            if not isinstance(idx, Z) or box.length is None:
                 raise Unsupported("index into an opaque collection", node)
             n = box.length
             i = V.to_int(idx.t)
